@@ -76,6 +76,29 @@ def position_rules(ptree, qtree, opts=None, r=None):
     return out
 
 
+def docstring_changes(r, opts):
+    """a body (module, def, class) has a docstring in the output exactly when it has that docstring in the input: removing the statements in front
+    of a string statement (pass, assert, `if __debug__`, literals) must not promote it, and no option but remove_literal_statements may drop one"""
+    out = []
+    for pi, qi in sorted(r.scope_map.items()):
+        pn_, qn_ = r.pmodel.scopes[pi].node, r.qmodel.scopes[qi].node
+        if not isinstance(pn_, (ast.Module, ast.FunctionDef, ast.AsyncFunctionDef, ast.ClassDef)):
+            continue
+        a, b = getattr(pn_, 'body', None), getattr(qn_, 'body', None)
+        if not (isinstance(a, list) and isinstance(b, list)):
+            continue
+        pd = a[0].value.value if a and matcher.is_docstring_stmt(a[0]) else None
+        qd = b[0].value.value if b and matcher.is_docstring_stmt(b[0]) else None
+        if qd is not None and pd is None:
+            out.append('docstring-created: %s %s has no docstring in the input; in the output the string statement %r is its first statement (its __doc__)' % (
+                type(pn_).__name__, r.pmodel.scopes[pi].name, qd[:40]))
+        elif pd is not None and qd is None and not (opts or {}).get('remove_literal_statements'):
+            out.append('docstring-lost: %s %s loses its docstring although remove_literal_statements is off' % (type(pn_).__name__, r.pmodel.scopes[pi].name))
+        elif pd is not None and qd is not None and pd != qd:
+            out.append('docstring-changed: %s %s' % (type(pn_).__name__, r.pmodel.scopes[pi].name))
+    return out
+
+
 def classify_c05(src, opts, diffs, pm):
     """mechanism keys for structural differences (known_findings.txt). Attribution = which single enabled option, when switched off,
     makes the case clean + a predicate over the input."""
@@ -224,6 +247,10 @@ def run_case(case):
         if nt:
             res['nontrivial'].append(common.sha(src) + '|' + common.opts_key(opts))
         # non-trivial detection for the statement-level rules: compare with the all-off rendering
+        if not r.diffs:
+            for msg in docstring_changes(r, opts):
+                viol('C05.docstring_created_by_removed_statements' if msg.startswith('docstring-created') else None, msg)
+            res['counters']['docstring_position_checks'] = 1
         if is_tainted and opts.get('remove_builtin_exception_brackets') and r.rules.get('exception-brackets-removed') and pm_raw.star_import:
             viol(None, 'exception brackets removed in a module with a star import')
     # ------------------------------------------------------------------ structure needed beyond this point
